@@ -24,6 +24,7 @@
 Shared machinery: harness/statuslib.py (wrapped, not edited).
 """
 import contextlib
+import functools
 import gc
 import hashlib
 import json
@@ -102,7 +103,12 @@ META = {
 }
 
 CK_NAME = {'md5': 'MD5Checker', 'timestamp': 'TimestampChecker'}
-CLEAN_KINDS = ['none', 'targets', 'plain', 'aware+plain', 'plain+aware', 'cmd', 'aware']
+CLEAN_KINDS = ['none', 'targets', 'plain', 'aware+plain', 'plain+aware', 'cmd', 'aware',
+               # callables of other shapes that do NOT take `dryrun` (must not run on a dry run) ...
+               'kwargs', 'args', 'default', 'partial', 'object', 'aware+kwargs',
+               # ... and that do (documented: called with dryrun=True, responsible for doing nothing)
+               'partial-aware', 'object-aware', 'aware-default']
+GROUP = 'g'          # basename of the group task when a case has sub-tasks
 DB_SUFFIX = {'json': {''}, 'dbm': {'.dat', '.dir', '.bak'}, 'sqlite3': {'', '-journal', '-wal', '-shm'}}
 
 
@@ -169,6 +175,32 @@ class C20World(statuslib.World):
                         with open('cleaned-%d' % t, 'w') as f:
                             f.write('x')
 
+                def kwargs_clean(**opts):
+                    plain_clean()
+
+                def args_clean(*args):
+                    plain_clean()
+
+                def default_clean(flag=False, t=t):
+                    plain_clean()
+
+                def two_args_clean(tag, t2):
+                    plain_clean()
+
+                class ObjClean(object):
+                    def __call__(self):
+                        plain_clean()
+
+                class ObjAwareClean(object):
+                    def __call__(self, dryrun):
+                        aware_clean(dryrun)
+
+                def aware3(tag, dryrun):
+                    aware_clean(dryrun)
+
+                def aware_default(dryrun=False, t=t):
+                    aware_clean(dryrun)
+
                 def teardown(t=t):
                     world.events.append(('teardown', t))
 
@@ -188,12 +220,115 @@ class C20World(statuslib.World):
                     d['clean'] = [plain_clean, aware_clean]
                 elif kind == 'cmd':
                     d['clean'] = ['echo x > cleaned-%d' % t]
+                elif kind == 'kwargs':
+                    d['clean'] = [kwargs_clean]
+                elif kind == 'args':
+                    d['clean'] = [args_clean]
+                elif kind == 'default':
+                    d['clean'] = [default_clean]
+                elif kind == 'partial':
+                    d['clean'] = [functools.partial(two_args_clean, 'x', t)]
+                elif kind == 'object':
+                    d['clean'] = [ObjClean()]
+                elif kind == 'aware+kwargs':
+                    d['clean'] = [aware_clean, kwargs_clean]
+                elif kind == 'partial-aware':
+                    d['clean'] = [functools.partial(aware3, 'x')]
+                elif kind == 'object-aware':
+                    d['clean'] = [ObjAwareClean()]
+                elif kind == 'aware-default':
+                    d['clean'] = [aware_default]
                 return d
             ns['task_' + tname(t)] = creator
+        grp = self.group()
+        if grp:
+            subs = [(t, ns.pop('task_' + tname(t))) for t in sorted(grp)]
+
+            def task_g(subs=subs):
+                for t, creator in subs:
+                    d = creator()
+                    d['name'] = tname(t)
+                    yield d
+            task_g.__name__ = 'task_' + GROUP
+            ns = dict([('task_' + GROUP, task_g)] + list(ns.items())) if (self.case or {}).get('group_first', True) \
+                else dict(list(ns.items()) + [('task_' + GROUP, task_g)])
         return ns
 
+    # -- sub-tasks: a naming layer.  Task i of a case with 'group': [..i..] is the sub-task `g:t<i>` of the group task
+    #    `g` (no action of its own).  Histories, model and driver keep talking about task i.
+    def group(self):
+        return set((self.case or {}).get('group') or [])
+
+    def rname(self, t):
+        return '%s:%s' % (GROUP, tname(t)) if t in self.group() else tname(t)
+
+    def _uptodate(self, item):
+        if item[0] == 'res' and item[1] in self.group():
+            from doit.task import result_dep
+            return result_dep(self.rname(item[1]))
+        return super(C20World, self)._uptodate(item)
+
+    def translate(self, argv):
+        grp = self.group()
+        if list(argv) == ['reset-dep']:
+            # all tasks, in index order (statuslib reads the outcomes in that order; the group task has no state)
+            argv = ['reset-dep'] + [tname(t) for t in range(self.ntasks)]
+        named = [int(a[1:]) for a in argv[1:] if re.match(r'^t\d+$', a)]
+        out = []
+        # `doit ignore` naming every sub-task is issued as `doit ignore g` (marks the group and all its sub-tasks)
+        whole = argv and argv[0] == 'ignore' and grp and grp <= set(named)
+        done = False
+        for a in argv:
+            if re.match(r'^t\d+$', a) and int(a[1:]) in grp:
+                if whole:
+                    if not done:
+                        out.append(GROUP)
+                        done = True
+                else:
+                    out.append(self.rname(int(a[1:])))
+            else:
+                out.append(a)
+        return out
+
+    def doit(self, argv, reporter=None):
+        if not self.group():
+            return super(C20World, self).doit(argv, reporter)
+        inner = statuslib.RecordingReporter() if reporter is not None else None
+        code, out, err = super(C20World, self).doit(self.translate(list(argv)), inner)
+        if reporter is not None:
+            reporter.events = [(k, None if n is None else n.split(':', 1)[-1], i) for k, n, i in inner.events
+                               if n != GROUP]
+        unname = lambda text: re.sub(r'\b%s:(t\d+)\b' % GROUP, r'\1', text)   # noqa: E731
+        return code, unname(out), unname(err)
+
+    def _dump_names(self):
+        from doit import dependency as dep
+        cls = {'json': dep.JsonDB, 'dbm': dep.DbmDB, 'sqlite3': dep.SqliteDB}[self.backend]
+        db = cls(self.db, codec=dep.JSONCodec())
+        out = []
+        try:
+            for t in range(self.ntasks):
+                name = self.rname(t)
+                rec = {}
+                for key in ['_values_:', 'result:', 'checker:', 'deps:', 'ignore:']:
+                    rec[key] = db.get(name, key)
+                if isinstance(rec['_values_:'], dict):      # `_result:g:t0` (result_dep on a sub-task) -> `_result:t0`
+                    rec['_values_:'] = {k.replace('_result:%s:' % GROUP, '_result:'): v
+                                        for k, v in rec['_values_:'].items()}
+                rec['files'] = {p: db.get(name, fname(p)) for p in range(self.npaths)}
+                out.append(rec)
+        finally:
+            try:
+                if self.backend == 'dbm':
+                    db._dbm.close()
+                elif self.backend == 'sqlite3':
+                    db._conn.close()
+            except Exception:  # noqa
+                pass
+        return out
+
     def dump(self):
-        out = super(C20World, self).dump()
+        out = self._dump_names() if self.group() else super(C20World, self).dump()
         if self.in_probe:
             return out
         i = self.n_dump
@@ -492,19 +627,27 @@ def run_probe(world, spec):
         world.plan = saved_plan
         world.events = []
     return {'before': snap0, 'results': results, 'oracle': oracle, 'checker': world.checker,
-            'defs': json.loads(json.dumps(world.defs))}
+            'defs': json.loads(json.dumps(world.defs)), 'group': sorted(world.group())}
 
 
 # ----------------------------------------------------------------------------------------------
 # the command lines of a probe
 
-def list_order(argv, ntasks):
-    """print order of a `list` command line (no private tasks, no sub-tasks in these worlds)"""
+def list_order(argv, ntasks, group=()):
+    """print order (task indices) of a `list` command line: sub-tasks are shown only when named or with --all; lines
+    are sorted by the real task name (`g:t1` < `t0`) unless --sort definition; no private tasks in these worlds"""
+    group = set(group or ())
     names = [int(a[1:]) for a in argv[1:] if re.match(r'^t\d+$', a)]
-    base = names if names else list(range(ntasks))
+    if names:
+        base = names
+    elif '--all' in argv:
+        # definition order: the group's sub-tasks where the group task is defined (first)
+        base = sorted(group) + [t for t in range(ntasks) if t not in group]
+    else:
+        base = [t for t in range(ntasks) if t not in group]
     if 'definition' in argv:
         return base
-    return sorted(base, key=tname)
+    return sorted(base, key=lambda t: ('%s:%s' % (GROUP, tname(t))) if t in group else tname(t))
 
 
 def cmd_shape(argv):
@@ -727,7 +870,7 @@ def probe_spec_model(pr, ntasks):
     for r in pr['results']:
         a = r['argv']
         if a[0] == 'list' and ('-s' in a):
-            lists.append(list_order(a, ntasks))
+            lists.append(list_order(a, ntasks, pr.get('group')))
         elif a[0] == 'info' and '--no-status' not in a:
             infos.append(int(a[-1][1:]))
     return {'lists': lists, 'infos': infos}
@@ -802,6 +945,8 @@ def compare_probe(case, i, pr, m, out, checks, check_tags):
         if any(e[0] == 'clean-aware' for e in r['events']):
             out.count('clean:dryrun-aware-action-called-with-dryrun')
         # ---------------- (K) write trace
+        r['calls'] = [[c[0], c[1].split(':', 1)[-1] if isinstance(c[1], str) else c[1]] for c in r['calls']
+                      if c[1] != GROUP]          # sub-task names back to task indices; the group task is not modelled
         writes = [c for c in r['calls'] if c[0] in ('set', 'remove', 'remove_all')]
         dumps = [c for c in r['calls'] if c[0] == 'dump']
         if dumps and argv[0] != 'clean':
@@ -812,7 +957,7 @@ def compare_probe(case, i, pr, m, out, checks, check_tags):
         if argv[0] == 'list' and '-s' in argv:
             ml = m['lists'][li]
             li += 1
-            order = list_order(argv, ntasks)
+            order = list_order(argv, ntasks, pr.get('group'))
             model_removes = ml['removes']
             model_db = ml['db']
             shown_impl = parse_list(r['out'])
@@ -841,8 +986,9 @@ def compare_probe(case, i, pr, m, out, checks, check_tags):
                     check_tags.append(dict(wit, clause='agree-list', task=tname(t), shown=w, ran=eligible[t]))
         elif argv[0] == 'list':
             shown_impl = parse_list(r['out'])
-            if [t for _, t in shown_impl] != list_order(argv, ntasks) or any(l for l, _ in shown_impl):
-                out.divs.append(dict(wit, what='list (no status) lines', impl=shown_impl, model=list_order(argv, ntasks)))
+            if [t for _, t in shown_impl] != list_order(argv, ntasks, pr.get('group')) or any(l for l, _ in shown_impl):
+                out.divs.append(dict(wit, what='list (no status) lines', impl=shown_impl,
+                                     model=list_order(argv, ntasks, pr.get('group'))))
         elif argv[0] == 'info' and '--no-status' not in argv:
             mi = m['infos'][ii]
             ii += 1
@@ -909,6 +1055,9 @@ def compare_probe(case, i, pr, m, out, checks, check_tags):
 def render(case):
     out = statuslib.render(statuslib.strip(case))
     kinds = case.get('clean') or {}
+    if case.get('group'):
+        out.insert(1, 'group task g with sub-tasks %s (named g:t<i> on the command line; `ignore` of all of them is '
+                      'issued as `doit ignore g`)' % ', '.join('g:' + tname(t) for t in sorted(case['group'])))
     if any(v != 'none' for v in kinds.values()):
         out.append('clean attributes: ' + ', '.join('t%s=%s' % kv for kv in sorted(kinds.items()) if kv[1] != 'none'))
     for pos, spec in case.get('probes', []):
@@ -978,6 +1127,18 @@ def perturb(rng, case, defs, nsrc):
     """ops appended before the last probe: the situations the read-only commands must get right"""
     ntasks = case['ntasks']
     ops = []
+    grp = sorted(case.get('group') or [])
+    if grp and rng.random() < 0.6:
+        # the group is ignored as a whole; then one sub-task loses its own mark (forget / a failing `run` cannot: it is
+        # skipped), or is reset
+        ops.append(['ignore', list(grp)])
+        r = rng.random()
+        if r < 0.6:
+            ops.append(['forget', [rng.choice(grp)]])
+        elif r < 0.75:
+            ops.append(['reset-dep', [rng.choice(grp)]])
+        if rng.random() < 0.5:
+            return ops
     t = rng.randrange(ntasks)
     d = defs[t]
     deps = d['deps'] or list(range(nsrc))
@@ -1015,6 +1176,8 @@ def gen_case(rng):
             defs[op[1]] = op[2]
     for t in range(ntasks):
         defs.setdefault(t, {'deps': [], 'targets': [], 'uptodate': []})
+    if ntasks >= 2 and rng.random() < 0.4:
+        case['group'] = sorted(rng.sample(range(ntasks), rng.randint(1 if ntasks == 2 else 2, ntasks)))
     if rng.random() < 0.7:
         case['ops'] += perturb(rng, case, defs, nsrc)
     case['clean'] = {str(t): rng.choice(CLEAN_KINDS) for t in range(ntasks)}
@@ -1068,6 +1231,40 @@ def exhaustive_cases(maxlen):
     return out
 
 
+GRP_PRE = [['edit', 0, 1], ['redefine', 0, {'deps': [0], 'targets': [], 'uptodate': []}],
+           ['redefine', 1, {'deps': [0], 'targets': [], 'uptodate': []}], ['run', {'plan': {}}]]
+GRP_LETTERS = {'J': [['ignore', [0, 1]]], 'j': [['ignore', [0]]], 'G': [['forget', [0]]], 'g': [['forget', [1]]],
+               'T': [['touch', 0]], 'R': [['run', {'plan': {}}]], 'C': [['checker', 'OTHER']], 'S': [['reset-dep', [0]]]}
+
+
+def exhaustive_group_cases(maxlen):
+    """two sub-tasks of one group: every word over ignore group / ignore one / forget one / forget other / touch /
+    run / checker switch / reset-dep"""
+    letters = sorted(GRP_LETTERS)
+    words, seqs = [], ['']
+    for _ in range(maxlen):
+        seqs = [s + a for s in seqs for a in letters]
+        words += seqs
+    out = []
+    for n, w in enumerate(words):
+        checker = statuslib.CHECKERS[(n // 3) % 2]
+        other = statuslib.CHECKERS[1 - (n // 3) % 2]
+        ops = json.loads(json.dumps(GRP_PRE))
+        for a in w:
+            for op in GRP_LETTERS[a]:
+                op = json.loads(json.dumps(op))
+                if op[0] == 'checker':
+                    op[1] = other
+                ops.append(op)
+        cmds = [['list', '--all', '-s'], ['list', '-s', 't1', 't0'], ['info', 't0'], ['info', 't1'], ['list', '-s'],
+                ['clean', '-n', '--forget']]
+        out.append({'backend': statuslib.BACKENDS[n % 3], 'checker': checker, 'ntasks': 2, 'npaths': 1, 'ops': ops,
+                    'word': 'grp:' + w, 'scramble': (n % 4) * 1237, 'group': [0, 1],
+                    'clean': {'0': CLEAN_KINDS[n % len(CLEAN_KINDS)], '1': CLEAN_KINDS[(n // 2) % len(CLEAN_KINDS)]},
+                    'probes': [[-1, {'cmds': cmds}]]})
+    return out
+
+
 def expand_corpus():
     out = []
     for name, c in common.load_corpus('C20'):
@@ -1087,7 +1284,8 @@ def expand_corpus():
 
 
 def case_key(case):
-    return {k: case.get(k) for k in ('backend', 'checker', 'ntasks', 'npaths', 'ops', 'clean', 'probes', 'scramble')}
+    return {k: case.get(k) for k in ('backend', 'checker', 'ntasks', 'npaths', 'ops', 'clean', 'probes', 'scramble', 'group')
+            if k != 'group' or case.get('group')}
 
 
 # ----------------------------------------------------------------------------------------------
@@ -1110,6 +1308,7 @@ def process_batch(batch):
         st.count('backend:' + case['backend'])
         st.count('checker0:' + case['checker'])
         st.count('tasks:%d' % case['ntasks'])
+        st.count('sub-tasks:%s' % ('group of %d' % len(case['group']) if case.get('group') else 'none'))
         for op in case['ops']:
             st.count('op:' + op[0])
         for k, n in o.counts.items():
@@ -1180,10 +1379,11 @@ def random_for(ctx, i):
 def run(ctx):
     quick = ctx.tier == 'quick'
     items = [('corpus', c) for _, c in expand_corpus()]
-    ex = exhaustive_cases(2 if quick and ctx.boost == 1 else 3)
-    ex.sort(key=lambda c: len(c['word']))
-    short = [c for c in ex if len(c['word']) <= 1]
-    rest = [c for c in ex if len(c['word']) > 1]
+    deep = not (quick and ctx.boost == 1)
+    ex = exhaustive_cases(3 if deep else 2) + exhaustive_group_cases(3 if deep else 2)
+    ex.sort(key=lambda c: len(c['word'].split(':')[-1]))
+    short = [c for c in ex if len(c['word'].split(':')[-1]) <= 1]
+    rest = [c for c in ex if len(c['word'].split(':')[-1]) > 1]
     items += [('exhaustive', c) for c in short]
     n_random = (140 if quick else 2500) * ctx.boost
     rnd = [('random', gen_case(random_for(ctx, i))) for i in range(n_random)]
@@ -1196,8 +1396,8 @@ def run(ctx):
             items.append(('exhaustive', c))
         ri += k
     items += [('exhaustive', c) for c in rest[ri:]]
-    ctx.extra['exhaustive_small_scope'] = {'alphabet': len(EXH_LETTERS), 'max_len': max(len(c['word']) for c in ex),
-                                           'histories': len(ex)}
+    ctx.extra['exhaustive_small_scope'] = {'alphabet': len(EXH_LETTERS), 'group_alphabet': len(GRP_LETTERS),
+                                           'max_len': 3 if deep else 2, 'histories': len(ex)}
     size = 4 if quick else 6
     batches = [items[i:i + size] for i in range(0, len(items), size)]
     per_round = common.NCPU * (6 if quick else 2)
